@@ -90,6 +90,27 @@ def run(out, tier, seed, model_ok):
             b = mammoth.convert_to_html(io.BytesIO(data), transform_document=tf2).value
             if a != b:
                 out.violation("an identity transform changed the conversion result", case, expected=a, actual=b)
+        # the same two functions on every element of the tree, not only on the document: strict descendants only
+        # (never the element itself), each once, and the typed variant is exactly the filter of the untyped one
+        everything = [doc] + list(transforms.get_descendants(doc))
+        step = max(1, len(everything) // 25)
+        for x in everything[::step]:
+            d = transforms.get_descendants(x)
+            if any(y is x for y in d):
+                out.violation("get_descendants(e) contains e itself", case)
+                break
+            if len(d) != count_nodes([D.elem_to_json(c) for c in getattr(x, "children", [])]) and not isinstance(x, documents.Document):
+                out.violation("get_descendants(e) returned %d elements for a subtree of %d" % (len(d), count_nodes([D.elem_to_json(c) for c in getattr(x, "children", [])])), case)
+                break
+            bad = None
+            for T in {documents.Paragraph, documents.Run, documents.Table, documents.Hyperlink, type(x)}:
+                got = transforms.get_descendants_of_type(x, T)
+                want = [y for y in d if isinstance(y, T)]
+                if len(got) != len(want) or any(a is not b for a, b in zip(got, want)):
+                    bad = T.__name__
+            if bad:
+                out.violation("get_descendants_of_type(e, %s) is not exactly the %s descendants of e (e is a %s)" % (bad, bad, type(x).__name__), case)
+                break
         # every descendant exactly once: count nodes independently
         if len(desc) != count_nodes(dj["children"]):
             out.violation("get_descendants returned %d elements, the document body has %d" % (len(desc), count_nodes(dj["children"])), case)
